@@ -22,7 +22,7 @@ impl Prop for C05 {
         "cases = a generated world (leaf files with two extensions, 1..9 compound nodes whose recipes - stored in the source - load / load_owned / get_cached leaves, lower-numbered nodes (a DAG), \
          directories and raw files, with no_record / thread / other-cache / catch blocks), top-level loads, mode hot_reload() or enhance_hot_reloading, then 1..10 steps; a step = 1..3 edits \
          (value edit, delete, create, recipe rewiring, recipe corruption, new directory / new file in a directory) all notified as a watcher would (entry + parent directory), single or batched, shuffled, with duplicates and noise, \
-         followed by a quiescence barrier (sentinel asset notified last; hot_reload until its reload id grows). Oracle: every cached reloadable asset equals a pure model evaluation of its recipe against the current source \
+         followed by a quiescence barrier (sentinel asset notified last; hot_reload until its reload id grows - in hot_reload() mode the very first call must already have applied it: every notification precedes the call). Oracle: every cached reloadable asset equals a pure model evaluation of its recipe against the current source \
          and the current values in the real cache (local consistency => global convergence); failing reloads keep the previous value; inside each pass no asset is reloaded before one of its (shadow-recorded) dependencies. \
          non-trivial = some step affects (per the shadow dependency graph) an asset that does not depend directly on a notified entry, or rewires a recipe, or repairs an asset whose previous reload failed; distinct = different canonical JSON"
             .into()
@@ -91,7 +91,7 @@ impl Prop for C05 {
                 // break the lowest leaf, then repair it
                 steps.push(hot::Step { edits: vec![hot::Edit::SetFile { id: hot::LEAVES[0].to_string(), ext: "la".into(), content: hot::Content::Bad }], notified: vec![true], batched: false, duplicate: false, noise: vec![], order: 0 });
                 steps.push(single(0, 300, false));
-                out.push(to_case(&WCase { files, nodes, top, static_mode: false, second: SecondCache::None, files2: vec![], steps }));
+                out.push(to_case(&WCase { files, nodes, top, static_mode: false, second: SecondCache::None, files2: vec![], steps, dir_ops: vec![] }));
             }
         }
         out
@@ -117,6 +117,13 @@ impl Prop for C05 {
             let sent = r.send(step, notes);
             if !r.barrier() {
                 out.fail("reload-lost", format!("step {sn}: the notified change of a loaded asset's file (the barrier's sentinel) was never applied although hot_reload kept returning {}", r.lost_detail));
+                break;
+            }
+            if let Some(n) = r.late_applications.first() {
+                out.fail(
+                    "hot-reload-returned-before-notified-change",
+                    format!("step {sn}: a change of a loaded asset's file was notified (EventSender::send returned) before hot_reload was called by the same thread, yet it was not applied when hot_reload returned: {n} more call(s) were needed"),
+                );
                 break;
             }
             let grew: BTreeMap<AKey, u32> = r.watches.iter().map(|(k, w)| (k.clone(), w.growths)).collect();
